@@ -5,6 +5,8 @@ from __future__ import annotations
 from typing import TYPE_CHECKING, ClassVar, Generic, TypeVar, cast
 from warnings import warn
 
+import numpy as np
+
 from quansino.mc.canonical import Canonical
 from quansino.mc.contexts import DeformationContext
 from quansino.mc.criteria import CanonicalCriteria, IsobaricCriteria
@@ -131,6 +133,21 @@ class Isobaric(Canonical[MoveType, CriteriaType], Generic[MoveType, CriteriaType
         self.context.last_cell = self.atoms.get_cell()
 
         super().validate_simulation()
+
+    def save_state(self) -> None:
+        """Save the current state and notify the moves when the accepted trial changed
+        the cell."""
+        if not np.array_equal(self.atoms.cell.array, self.context.last_cell.array):
+            notified: set[int] = set()
+
+            for move_storage in self.moves.values():
+                if id(move_storage.move) in notified:
+                    continue
+
+                notified.add(id(move_storage.move))
+                move_storage.move.on_cell_changed(self.atoms.cell)
+
+        super().save_state()
 
     def revert_state(self) -> None:
         """
